@@ -8,7 +8,9 @@ PROP_V = ["Props/Properties_C01.v", "Props/Properties_C01w.v"]
 GEN_MODULES = ["Consts", "Sites"]
 FLOW_FILES = ['mu.c', 'mu_wait.c']
 REPLAY_HINT = "VRT_SEED=<seed> [env] _work/h/<scenario>  (deterministic: same seed, same schedule); add VRT_TRACE=<file> for the step trace"
-PARTIAL = ["C01_exclusion (MuModel) and C01w_exclusion (MuWaitModel: + nsync_mu_wait_with_deadline incl. the timeout re-acquisition with its "
+PARTIAL = ["quantifier 'counting and binary semaphores': the models use an abstract COUNTING semaphore (a sound over-approximation of the binary one for exclusion: fewer posts are never needed for safety); the binary flavour is exercised by the scenario runs only",
+           "no theorem states that the model's panic pcs (Crash k for the ASSERTs of mu.c) are unreachable for contract-respecting programs; a crashed thread is a violation for the oracles (CRASH) and never occurs in the replayed traces",
+           "C01_exclusion (MuModel) and C01w_exclusion (MuWaitModel: + nsync_mu_wait_with_deadline incl. the timeout re-acquisition with its "
            "frozen-word window, unlock_slow's conversion to a writer, unlock_without_wakeup) are theorems; the re-acquisitions inside "
            "nsync_cv_wait* (transfer to the mutex queue) and nsync_wait_n are covered by the occupancy oracle over sampled schedules and by "
            "the cv / wait_n models' own theorems (Properties_C05cv, C11_mutex), not by one exclusion theorem over a combined model"]
